@@ -152,6 +152,10 @@ func (e *signersEnv) execHist(h *signersHist, line string) (res string) {
 	k := e.app.MetadataKeeper
 	ms := metadatakeeper.NewMsgServerImpl(k)
 	scopeID, _, _, _, cSpecID, _, recordID := e.ids()
+	idForm := op.kv["ids"]
+	if idForm != "" && (!signersIDFormOK(idForm) || (op.kind != "wscope" && op.kind != "wsession" && op.kind != "wrecord")) {
+		return "bad-op"
+	}
 	defer func() {
 		if strings.HasPrefix(res, "ok") {
 			write()
@@ -190,7 +194,11 @@ func (e *signersEnv) execHist(h *signersHist, line string) (res string) {
 		}
 		prop := e.mkScope(proposed)
 		prop.ValueOwnerAddress = pvo
-		_, merr := ms.WriteScope(ctx, &types.MsgWriteScopeRequest{Scope: prop, Signers: signers})
+		wmsg, ok := signersScopeMsg(idForm, prop, signers)
+		if !ok {
+			return "bad-op"
+		}
+		_, merr := ms.WriteScope(ctx, wmsg)
 		return stored(merr, true)
 	case "dscope":
 		if op.kv["scope"] != st.scope || st.scope == "none" || voName("vo") != st.vo {
@@ -232,7 +240,10 @@ func (e *signersEnv) execHist(h *signersHist, line string) (res string) {
 		if err1 != nil {
 			return "bad-op"
 		}
-		msg := &types.MsgWriteSessionRequest{Session: types.Session{SessionId: id, SpecificationId: cSpecID, Parties: proposed, Name: "sess" + sid}, Signers: signers}
+		msg, ok := signersSessionMsg(idForm, types.Session{SessionId: id, SpecificationId: cSpecID, Parties: proposed, Name: "sess" + sid}, signers)
+		if !ok {
+			return "bad-op"
+		}
 		_, merr := ms.WriteSession(ctx, msg)
 		c := e.class(merr)
 		if merr != nil {
@@ -270,7 +281,11 @@ func (e *signersEnv) execHist(h *signersHist, line string) (res string) {
 		rec := types.Record{Name: "rec", SessionId: id,
 			Process: types.Process{ProcessId: &types.Process_Hash{Hash: "h"}, Name: "p", Method: "m"},
 			Outputs: []types.RecordOutput{{Hash: "o", Status: types.ResultStatus_RESULT_STATUS_PASS}}}
-		_, merr := ms.WriteRecord(ctx, &types.MsgWriteRecordRequest{Record: rec, Signers: signers})
+		wmsg, ok := signersRecordMsg(idForm, rec, cSpecID, signers)
+		if !ok {
+			return "bad-op"
+		}
+		_, merr := ms.WriteRecord(ctx, wmsg)
 		c := e.class(merr)
 		if merr != nil {
 			return c
@@ -494,6 +509,13 @@ func (e *signersEnv) runHist(h *signersHist, line string, out *Out) string {
 	if kind == "wscope" || kind == "dscope" || kind == "wrecord" {
 		e.countDims(kind, line, res, out)
 	}
+	if i := strings.Index(line, " ids="); i >= 0 {
+		form := signersFirst(line[i+5:])
+		out.Count("ids:" + kind + ":" + form + ":" + first)
+		if kind == "wsession" && !strings.Contains(line, " existing=none ") {
+			out.Count("ids:wsession-existing-session:" + form + ":" + first)
+		}
+	}
 	if op, err := signersParse(line); err == nil {
 		switch kind {
 		case "wrecord":
@@ -527,7 +549,7 @@ func driveSignersHist(t *testing.T, rng *RNG, n int, out *Out) {
 				}
 				prevRollup = st.scope[:1]
 			}
-			e.runHist(h, g.genHist(st), out)
+			e.runHist(h, g.withIDs(g.genHist(st)), out)
 			done++
 		}
 		if flips > 3 {
